@@ -68,6 +68,8 @@ PROP_MODELS = {
     'C12': ['sqrt', 'numpy.poly1d', 'numpy.roots'],
     'C07': ['sqrt', 'mutableseq'],
     'C16': ['sqrt', 'mutableseq'],
+    'C01': ['mutableseq'],
+    'C02': ['mutableseq'],
     'C08': ['sqrt', 'numpy.poly1d', 'numpy.roots', 'mutableseq'],
     'C14': ['numpy.poly1d', 'numpy.small', 'mutableseq'],
     'C09': ['mutableseq'],
@@ -76,6 +78,8 @@ PROP_MODELS = {
 }
 
 PROP_NOTES = {
+    'C01': ["LEX: formatting a finite double with str.format and tokenising the result with COMMAND_RE.split + FLOAT_RE.findall inside a string assembled from the repo's literal templates gives back one token whose float() is that double; .lower() does not change it"],
+    'C02': ["LEX is decided by the bounded lexer stand-in (exhaustive to length 6), not proved"],
     'C06': ["scipy.integrate.quad(f,a,b): an uninterpreted value >= 0; its accuracy is not assumed, so nothing about accuracy is proved",
             "numpy scalar arithmetic in QuadraticBezier.length: x/0 and log(0) yield inf/nan values (modelled), not exceptions"],
     'C19': ["per-shape: proofs for degrees/lengths 0..8 (rational_limit degrees 0..4), no claim beyond",
